@@ -293,15 +293,153 @@ pub fn run_periodic(s: &mut Src, ctx: &mut Ctx) -> Verdict {
     Verdict::Pass
 }
 
+/// Part `components`: the two public building blocks (`WatermarkGenerator`, `LateDataHandler`) driven directly, the
+/// way `WatermarkedStream::add_event` composes them, plus what only they offer: the handler's side output can be
+/// drained (`clear_side_output`), the generator reports each advance as its return value, and lateness can be
+/// asked about without offering the event. Judged after every step against the same model: the return value of
+/// `process_event` is `Some(w)` exactly when the watermark moved (and `w` is the new value); the decision for a
+/// late event is the one the strategy prescribes and carries that event; `total_late` counts every late event
+/// offered so far (draining the side output does not un-count them), `dropped` / `allowed` likewise,
+/// `side_output` is the current size of the buffer, whose contents are the late events routed there since the
+/// last drain, in order; `Watermark::is_late` / `WatermarkGenerator::is_late` answer `t < watermark`.
+pub fn run_components(s: &mut Src, ctx: &mut Ctx) -> Verdict {
+    let (wm, late, ts) = gen(s, 0);
+    // per step: drain the side output before offering?
+    let drains: Vec<bool> = ts.iter().map(|_| s.chance(1, 5)).collect();
+    if probe_only() {
+        return Verdict::Pass;
+    }
+    ctx.describe(|| format!("components watermark={:?} late={:?} steps (timestamp, drain-side-output-first) {:?}", wm, late, ts.iter().zip(drains.iter()).collect::<Vec<_>>()));
+    let ws = match wm {
+        Wm::Mono => WatermarkStrategy::MonotonicAscending,
+        Wm::Bounded(d) => WatermarkStrategy::BoundedOutOfOrder { max_delay: Duration::from_millis(d) },
+    };
+    let ls = match late {
+        Late::Drop => LateDataStrategy::Drop,
+        Late::Allowed(l) => LateDataStrategy::AllowedLateness { max_lateness: Duration::from_millis(l) },
+        Late::Side => LateDataStrategy::SideOutput,
+        Late::Recompute => LateDataStrategy::RecomputeWindows,
+    };
+    let mut g = WatermarkGenerator::new(ws);
+    let mut h = LateDataHandler::new(ls);
+    let delay = match wm {
+        Wm::Mono => 0,
+        Wm::Bounded(d) => d,
+    };
+    let (mut m_wm, mut m_max) = (0u64, 0u64);
+    let (mut m_late, mut m_drop, mut m_allowed, mut m_routed) = (0usize, 0usize, 0usize, 0usize);
+    let mut m_side: Vec<String> = vec![];
+    let mut drained_nonempty = false;
+    let mut late_after_drain = false;
+    for (i, (&t, &drain)) in ts.iter().zip(drains.iter()).enumerate() {
+        if drain {
+            if !m_side.is_empty() {
+                drained_nonempty = true;
+            }
+            h.clear_side_output();
+            m_side.clear();
+        }
+        let e = ev(i, t);
+        let asked = g.is_late(&e);
+        let asked_wm = g.current_watermark().is_late(t);
+        let want_late = t < m_wm;
+        if asked != want_late || asked_wm != want_late {
+            return Verdict::fail("components:is-late", format!("step {} (t={}, watermark {}): WatermarkGenerator::is_late={} Watermark::is_late={} but t < watermark is {}", i, t, m_wm, asked, asked_wm, want_late));
+        }
+        if want_late {
+            m_late += 1;
+            if drained_nonempty {
+                late_after_drain = true;
+            }
+            let d = h.handle_late_event(e, &g.current_watermark());
+            let (kind, carried) = match &d {
+                LateEventDecision::Drop => ("drop", None),
+                LateEventDecision::Process(x) => ("process", Some(x.id.clone())),
+                LateEventDecision::SideOutput(x) => ("side", Some(x.id.clone())),
+                LateEventDecision::Recompute(x) => ("recompute", Some(x.id.clone())),
+            };
+            let want = match late {
+                Late::Drop => {
+                    m_drop += 1;
+                    "drop"
+                }
+                Late::Allowed(l) => {
+                    if m_wm - t <= l {
+                        m_allowed += 1;
+                        "process"
+                    } else {
+                        m_drop += 1;
+                        "drop"
+                    }
+                }
+                Late::Side => {
+                    m_routed += 1;
+                    m_side.push(format!("e{}", i));
+                    "side"
+                }
+                Late::Recompute => {
+                    m_allowed += 1;
+                    "recompute"
+                }
+            };
+            if kind != want || carried.as_deref().map(|c| c != format!("e{}", i)).unwrap_or(false) {
+                return Verdict::fail("components:decision", format!("step {} (t={}, watermark {}): decision {} carrying {:?}, the strategy {:?} prescribes {} for e{}", i, t, m_wm, kind, carried, late, want, i));
+            }
+        } else {
+            let r = g.process_event(&e);
+            m_max = m_max.max(t);
+            let cand = m_max.saturating_sub(delay);
+            let moved = cand > m_wm;
+            if moved {
+                m_wm = cand;
+            }
+            match (r, moved) {
+                (Some(w), true) if w.timestamp == m_wm => {}
+                (None, false) => {}
+                (r, _) => return Verdict::fail("components:process-event-return", format!("step {} (t={}): process_event returned {:?}; the watermark {} (now {})", i, t, r.map(|w| w.timestamp), if moved { "advanced" } else { "did not move" }, m_wm)),
+            }
+        }
+        let cur = g.current_watermark().timestamp;
+        if cur != m_wm {
+            return Verdict::fail("components:wm-value", format!("step {} (t={}): watermark {} but model {}", i, t, cur, m_wm));
+        }
+        let side: Vec<String> = h.side_output().iter().map(|e| e.id.clone()).collect();
+        if side != m_side {
+            return Verdict::fail("components:side-output", format!("step {}: side output {:?} but the events routed there since the last drain are {:?}", i, side, m_side));
+        }
+        let st = h.stats();
+        if (st.total_late, st.dropped, st.allowed, st.side_output) != (m_late, m_drop, m_allowed, m_side.len()) {
+            return Verdict::fail(
+                "components:late-stats",
+                format!("step {}: stats {:?} but {} late events were offered (dropped {}, allowed {}, routed to the side output {} of which {} still buffered)", i, st, m_late, m_drop, m_allowed, m_routed, m_side.len()),
+            );
+        }
+        if m_late != m_drop + m_allowed + m_routed {
+            return Verdict::fail("components:model", "model accounting broken".to_string());
+        }
+    }
+    if drained_nonempty {
+        ctx.label("drained-a-non-empty-side-output");
+    }
+    if late_after_drain {
+        ctx.label("late-event-after-a-drain");
+    }
+    if m_late > 0 && (drained_nonempty || m_drop + m_allowed > 0) {
+        ctx.nontrivial(hash_of(&(format!("{:?}{:?}", wm, late), &ts, &drains)));
+    }
+    Verdict::Pass
+}
+
 pub fn property() -> Property {
     Property {
         id: "C13",
         level: "exploration",
-        rule: "generated: timestamp sequences of length 0..12 over base+0..30 in any order x {BoundedOutOfOrder(0..10 ms), MonotonicAscending} x {Drop, AllowedLateness(0..10), SideOutput, RecomputeWindows}; plus exhaustive enumeration of all sequences of length 4..6 (quick) / 4..8 (thorough) over a 6-value domain x 20 configurations (every prefix is judged, so shorter sequences are covered). Oracle: watermark/late model from the statement, compared after every add_event (watermark value, monotonicity, events, side output, stats, conservation, history). Non-trivial: at least one late event and a watermark advance after it; distinct by (configuration, sequence).",
+        rule: "generated: timestamp sequences of length 0..12 over base+0..30 in any order x {BoundedOutOfOrder(0..10 ms), MonotonicAscending} x {Drop, AllowedLateness(0..10), SideOutput, RecomputeWindows}; plus exhaustive enumeration of all sequences of length 4..6 (quick) / 4..8 (thorough) over a 6-value domain x 20 configurations (every prefix is judged, so shorter sequences are covered). Oracle: watermark/late model from the statement, compared after every add_event (watermark value, monotonicity, events, side output, stats, conservation, history). Non-trivial: at least one late event and a watermark advance after it; distinct by (configuration, sequence). Part `components`: WatermarkGenerator and LateDataHandler driven directly (offer = is_late ? handle_late_event : process_event, as add_event composes them) with clear_side_output drains between offers; judged after every step: process_event returns Some(new watermark) exactly when it moved, the decision is the one the strategy prescribes and carries the event, total_late / dropped / allowed count every late event offered so far (a drain un-counts nothing), side_output is the current buffer size and the buffer holds the late events routed there since the last drain, is_late answers t < watermark.",
         assumptions: vec!["The Periodic strategy reads the wall clock: its watermark values are not modelled; part `periodic` judges only what is stated relative to the watermark observed before each call (monotone, late iff below it, routing, statistics), with real sleeps past the interval in the generator but no clock in the oracle. Custom does nothing.".into()],
         parts: vec![
             Part { name: "random", run, quick: Budget::Random { cases: 4_000_000, bytes: 40 }, thorough: Budget::Random { cases: 20_000_000, bytes: 40 }, min_nontrivial_pct: 15 },
             Part { name: "periodic", run: run_periodic, quick: Budget::Random { cases: 10_000, bytes: 40 }, thorough: Budget::Random { cases: 60_000, bytes: 40 }, min_nontrivial_pct: 20 },
+            Part { name: "components", run: run_components, quick: Budget::Random { cases: 1_000_000, bytes: 48 }, thorough: Budget::Random { cases: 8_000_000, bytes: 48 }, min_nontrivial_pct: 15 },
             Part { name: "exh4", run, quick: Budget::Exhaustive { param: 4 }, thorough: Budget::Exhaustive { param: 4 }, min_nontrivial_pct: 0 },
             Part { name: "exh5", run, quick: Budget::Exhaustive { param: 5 }, thorough: Budget::Exhaustive { param: 5 }, min_nontrivial_pct: 0 },
             Part { name: "exh6", run, quick: Budget::Exhaustive { param: 6 }, thorough: Budget::Exhaustive { param: 6 }, min_nontrivial_pct: 0 },
